@@ -159,6 +159,15 @@ def run_hash_file(ctx, data, names, hint, sched_seed, maxchunk, case):
         f = open(os.path.join(d, 'f'), 'rb')
         raw = None
         ctx.count('real_file_cases')
+        # the caller may have looked at the beginning of the file already: data sits
+        # in the reader's buffer while the position is (again) 0
+        if len(data) % 3 == 1:
+            f.peek(1)
+            ctx.count('real_file_prebuffered')
+        elif len(data) % 3 == 2:
+            f.read(min(3, len(data)))
+            f.seek(0)
+            ctx.count('real_file_prebuffered')
     elif sched_seed is None:
         f = io.BytesIO(data)
         raw = None
@@ -250,16 +259,22 @@ def exec_case(case, ctx):
         ctx.count('unsupported_cases')
         from gemato.exceptions import UnsupportedHash
         try:
-            if case['via'] == 'hash_file':
-                r = gh.hash_file(io.BytesIO(data), [case['name']])
-            else:
-                with common.Scratch('vf-c17-') as d:
-                    p = os.path.join(d, 'f')
-                    with open(p, 'wb') as f:
-                        f.write(data)
-                    r = list(gv.get_file_metadata(p, [case['name']]))
-        except UnsupportedHash:
-            return
+            # (asked twice: the answer for a name does not depend on whether it was
+            # asked for before in this process)
+            for attempt in (1, 2, 3):
+                try:
+                    if case['via'] == 'hash_file':
+                        r = gh.hash_file(io.BytesIO(data), [case['name']])
+                    else:
+                        with common.Scratch('vf-c17-') as d:
+                            p = os.path.join(d, 'f')
+                            with open(p, 'wb') as f:
+                                f.write(data)
+                            r = list(gv.get_file_metadata(p, [case['name']]))
+                    break
+                except UnsupportedHash:
+                    if attempt == 3:
+                        return
         except Exception as exc:
             ctx.violation('unsupported-not-reported:%s:%s' % (case['via'],
                                                               adapt.exc_key(exc)),
